@@ -34,6 +34,16 @@
 #include "iora/parsers/http_message.hpp"
 #include "iora/parsers/json.hpp"
 
+#ifdef IORA_VERIF
+namespace iora
+{
+namespace verif
+{
+struct Access; // verification harness: feeds the private incremental response framer directly
+}
+} // namespace iora
+#endif
+
 namespace iora
 {
 namespace network
@@ -96,6 +106,9 @@ public:
 /// async transport close for an evicted id cannot tear down a later reused id.
 class HttpClient
 {
+#ifdef IORA_VERIF
+  friend struct ::iora::verif::Access;
+#endif
 public:
   /// \brief TLS configuration for HTTPS requests
   struct TlsConfig
